@@ -544,4 +544,78 @@ example : (qsortB (fun x y : List Byte => ((x.headD 0).toNat : Int) - (y.headD 0
 -- a swap with it, and a `memcpy` over the end
 example : elemAt 2 [3, 0, 2] 2 = none ∧ swapB 2 [3, 0, 2] 0 2 = none ∧ blit [3, 0, 2] 2 [7, 7] = none := by decide
 
+/-! ## Extension: bsearch / upper_bound / lower_bound on BYTES
+
+The same for bsearch.c: `left`, `right`, `mid` as byte offsets with the C
+expression `mid = left + ((right - left) / (size << 1) * size)`; every
+comparator argument must be `size` bytes completely inside the array. -/
+
+/-- bsearch on the bytes of an array laid out as ISO requires: no access
+outside `[base, base + nmemb*size)`, the returned pointer is `base + i*size` of
+an element comparing equal, NULL iff there is none — for every `size ≥ 1` -/
+theorem bsearch_bytes_iff {κ : Type} (size : Nat) (hs : 0 < size) (cmp : κ → List Byte → Int) (key : κ)
+    (a : List (List Byte)) (hu : Uniform size a) (hp : PartitionedBy cmp key a) :
+    ∃ r, bsearchB cmp key size a.flatten a.length = some r ∧
+      (∀ p, r = some p → ∃ i, ∃ h : i < a.length, p = i * size ∧ cmp key a[i] = 0) ∧
+      (r = none → ∀ i (h : i < a.length), cmp key a[i] ≠ 0) := by
+  obtain ⟨r, hr, h1, h2⟩ := bsearch_iff cmp key a hp
+  refine ⟨r.map (· * size), ?_, ?_, ?_⟩
+  · rw [bsearchB_refines cmp key hs a hu, hr]; rfl
+  · intro p hp'
+    cases r with
+    | none => cases hp'
+    | some i =>
+      simp only [Option.map_some, Option.some.injEq] at hp'
+      obtain ⟨hi, h0⟩ := h1 i rfl
+      exact ⟨i, hi, hp'.symm, h0⟩
+  · intro hn
+    cases r with
+    | none => exact h2 rfl
+    | some i => cases hn
+
+/-- upper_bound / lower_bound on bytes return `base + size * (first index …)` -/
+theorem bounds_bytes {κ : Type} (size : Nat) (hs : 0 < size) (cmp : κ → List Byte → Int) (key : κ)
+    (a : List (List Byte)) (hu : Uniform size a) (hp : PartitionedBy cmp key a) :
+    upperBoundB cmp key size a.flatten a.length = some (Spec.firstIdx (fun x => decide (cmp key x < 0)) a * size) ∧
+    lowerBoundB cmp key size a.flatten a.length = some (Spec.firstIdx (fun x => decide (cmp key x ≤ 0)) a * size) := by
+  obtain ⟨h1, h2⟩ := boundsB_refine cmp key hs a hu
+  rw [h1, h2, upper_bound_is_first_greater cmp key a hp, lower_bound_is_first_not_less cmp key a hp]
+  exact ⟨rfl, rfl⟩
+
+-- 3-byte elements ordered by their first byte, a 1-byte key: found at byte offset 6, bounds at 3 and 9
+example : bsearchB (fun (k : Nat) (e : List Byte) => (k : Int) - (e.headD 0).toNat) 3 3 [1, 9, 9, 3, 8, 8, 3, 7, 7, 5, 6, 6] 4 = some (some 6)
+    ∧ lowerBoundB (fun (k : Nat) (e : List Byte) => (k : Int) - (e.headD 0).toNat) 3 3 [1, 9, 9, 3, 8, 8, 3, 7, 7, 5, 6, 6] 4 = some 3
+    ∧ upperBoundB (fun (k : Nat) (e : List Byte) => (k : Int) - (e.headD 0).toNat) 3 3 [1, 9, 9, 3, 8, 8, 3, 7, 7, 5, 6, 6] 4 = some 9 := by decide
+
+/-! ## Extension: atol / atoi / atoll outside the representable range -/
+
+/-- atol is defined by the code exactly where ISO defines it: the decimal value
+when it is representable in `long`, and signed overflow (a fault of the model,
+undefined behaviour of the C code — UBSan aborts) for every other text.  ISO
+7.22.1.2 leaves that case undefined, so this is not a violation; callers that
+need clamping have `strtol` / `atoll` (`atoll_value`: defined for every text). -/
+theorem atol_defined_iff_representable (w : Nat) (hw : 0 < w) (t : List Byte) :
+    atol w (t ++ [0]) =
+      if -((2 : Int) ^ (w - 1)) ≤ Spec.decimalValue t ∧ Spec.decimalValue t ≤ (2 : Int) ^ (w - 1) - 1
+      then some (Spec.decimalValue t) else none := by
+  by_cases h : -((2 : Int) ^ (w - 1)) ≤ Spec.decimalValue t ∧ Spec.decimalValue t ≤ (2 : Int) ^ (w - 1) - 1
+  · rw [if_pos h]; exact atol_value w hw t h
+  · rw [if_neg h]; exact atol_overflow w hw t h
+
+/-- atoi = `(int) atol`: inside `long` but outside `int` the low `wi` bits of the
+value (implementation-defined conversion, what gcc and glibc's atoi do);
+outside `long` the fault of atol -/
+theorem atoi_truncates (wl wi : Nat) (hwl : 0 < wl) (t : List Byte) :
+    atoi wl wi (t ++ [0]) =
+      if -((2 : Int) ^ (wl - 1)) ≤ Spec.decimalValue t ∧ Spec.decimalValue t ≤ (2 : Int) ^ (wl - 1) - 1
+      then some (asSigned wi ((Spec.decimalValue t % 2 ^ wi).toNat)) else none := by
+  unfold atoi
+  rw [atol_defined_iff_representable wl hwl t]
+  split <;> rfl
+
+-- "128" as atol of an 8-bit long: overflow; "200" as atoi of a 16-bit long / 8-bit int: 200 - 256
+example : atol 8 ([0x31, 0x32, 0x38] ++ [0]) = none := by decide
+example : atoi 16 8 ([0x32, 0x30, 0x30] ++ [0]) = some (-56) := by decide
+example : atoll 8 ([0x31, 0x32, 0x38] ++ [0]) = some 127 ∧ atoll 8 ([0x20, 0x2d, 0x39, 0x39, 0x39] ++ [0]) = some (-128) := by decide
+
 end Igris.C11
